@@ -85,8 +85,11 @@ def encFields : List (Nat × Val) → List Byte
 end
 
 mutual
-/-- What the generated `Size()` computes (the fixed-size array short cut is the lemma
-    `vsize_arr_fixed`). -/
+/-- What the generated `Size()` computes for a value WITHOUT deprecated message fields — every value the
+    encoders emit as it stands (`wt`) — and therefore the length of the encoding (`length_enc`); the
+    fixed-size array short cut is the lemma `vsize_arr_fixed`.  `Size()` in general — also for what a
+    decoder returns after it met a deprecated field on the wire — is `gsize` below; the two coincide on
+    well-typed values (`gsize_eq_vsize_of_wt`). -/
 def vsize : Val → Nat
   | .scalar w _ => w
   | .str bs => 4 + bs.length
@@ -105,6 +108,69 @@ def vsizeKVs : List (Val × Val) → Nat
 def vsizeFields : List (Nat × Val) → Nat
   | [] => 0
   | (_, v) :: fs => 1 + vsize v + vsizeFields fs
+end
+
+mutual
+/-- The generated `Size()` in general: type-directed, because a message's `Size()` SKIPS the fields its
+    definition marks `[deprecated]` (they are decoded, but neither encoded nor counted).  This is the
+    number the byte-slice decoders step over a nested record with (`dec`).  On a value whose shape does
+    not fit the type it falls back to `vsize`; the union with no member set (`emptyUnion`, discriminator
+    256, which is all the decoders produce for an unknown discriminator) gets the number `vsize` gives it. -/
+def gsize (env : Env) (ty : Ty) : Val → Nat
+  | .scalar w _ => w
+  | .str bs => 4 + bs.length
+  | .guid _ => 16
+  | .arr vs =>
+    match ty with
+    | .arr t => 4 + gsizeList env t vs
+    | _ => vsize (.arr vs)
+  | .map kvs =>
+    match ty with
+    | .map k t => 4 + gsizeKVs env k t kvs
+    | _ => vsize (.map kvs)
+  | .struct fs =>
+    match ty with
+    | .ref n =>
+      match env[n]? with
+      | some (.struct tys) => gsizeStruct env tys fs
+      | _ => vsize (.struct fs)
+    | _ => vsize (.struct fs)
+  | .msg fs =>
+    match ty with
+    | .ref n =>
+      match env[n]? with
+      | some (.msg fds) => Facts.msgSizeBase + gsizeFields env fds fs
+      | _ => vsize (.msg fs)
+    | _ => vsize (.msg fs)
+  | .union d v =>
+    match ty with
+    | .ref n =>
+      match env[n]? with
+      | some (.union brs) =>
+        match brs.lookup d with
+        | some m => Facts.unionSizeBase + 1 + gsize env (.ref m) v
+        | none => Facts.unionSizeBase      -- no member set (unknown discriminator): Size() is the bare 4
+      | _ => vsize (.union d v)
+    | _ => vsize (.union d v)
+def gsizeList (env : Env) (t : Ty) : List Val → Nat
+  | [] => 0
+  | v :: vs => gsize env t v + gsizeList env t vs
+/-- Map keys are primitives, for which `gsize` is `vsize` whatever the type (`gsize_key`). -/
+def gsizeKVs (env : Env) (k t : Ty) : List (Val × Val) → Nat
+  | [] => 0
+  | (a, b) :: kvs => gsize env k a + gsize env t b + gsizeKVs env k t kvs
+/-- Struct fields against their types, position by position. -/
+def gsizeStruct (env : Env) : List Ty → List Val → Nat
+  | t :: ts, v :: vs => gsize env t v + gsizeStruct env ts vs
+  | _, _ => 0
+/-- A present field counts `1 + Size()` of its value unless its definition is marked deprecated; an index
+    the definition does not know (no decoder produces one) counts nothing. -/
+def gsizeFields (env : Env) (fds : List MsgField) : List (Nat × Val) → Nat
+  | [] => 0
+  | (i, v) :: fs =>
+    (match fds.find? (fun fd => fd.idx == i) with
+     | some fd => if fd.deprecated = true then 0 else 1 + gsize env fd.ty v
+     | none => 0) + gsizeFields env fds fs
 end
 
 mutual
@@ -190,7 +256,9 @@ mutual
 /-- `wt env ty v`: `v` is a value of type `ty` that a Go program can hold and the wire can
     carry: lengths and counts fit in u32, scalars fit their width, bools are 0/1, dates are in
     the range where `UnixNano` is defined, map keys are pairwise distinct under Go `==`, a
-    message holds known non-zero indices in ascending order, a union holds exactly one member. -/
+    message holds known, NON-DEPRECATED, non-zero indices in ascending order, a union holds exactly one
+    member.  Deprecated fields are excluded because the encoders never write them: a well-typed value is
+    one the encoders emit as it stands (the harness strips deprecated fields before comparing). -/
 def wt (env : Env) (ty : Ty) : Val → Prop
   | .scalar w n => n < 256 ^ w ∧
       ((ty = .scalar w ∧ 0 < w) ∨ (ty = .bool ∧ w = 1 ∧ n ≤ 1) ∨ (ty = .f32 ∧ w = 4) ∨ (ty = .f64 ∧ w = 8)
@@ -218,7 +286,8 @@ def wtStruct (env : Env) : List Ty → List Val → Prop
 def wtMsg (env : Env) (fds : List MsgField) (lo : Nat) : List (Nat × Val) → Prop
   | [] => True
   | (i, v) :: fs => lo < i ∧ i < 256 ∧
-      (∃ fd, fds.find? (fun fd => fd.idx == i) = some fd ∧ wt env fd.ty v) ∧ wtMsg env fds i fs
+      (∃ fd, fds.find? (fun fd => fd.idx == i) = some fd ∧ fd.deprecated = false ∧ wt env fd.ty v) ∧
+      wtMsg env fds i fs
 end
 
 /-- What the parser and validator guarantee about an accepted schema, as far as the codecs care:
